@@ -4,6 +4,7 @@ import (
 	"context"
 	"encoding/json"
 	"fmt"
+	"runtime"
 	"strconv"
 	"strings"
 	"time"
@@ -257,7 +258,56 @@ func srvRunCase(o *common.Out, id string, nconn int, reqs []sreqCase, order []in
 		}
 	}
 	gatedIDs := map[int]bool{}
+	// the schedule: every request is sent (S) and, if a gated handler runs for it, released (R).
+	// Default: send all, then release in the given completion order.  A negative entry -k-1 in
+	// `order` means "send request k now": that lets a case interleave sends and completions.
+	sendOne := func(rid int) bool {
+		q := reqs[rid]
+		model = append(model, q.modelTok(rid))
+		ps := q.payload(rid)
+		path, meth := q.pathMethod()
+		if err := peers[q.conn].send(reqSpec{seq: q.seq, path: path, method: meth, ser: q.ser, hb: q.hb, oneway: q.ow, payload: ps,
+			meta: []refcodec.KV{{K: []byte("rid"), V: []byte(strconv.Itoa(rid))}}}); err != nil {
+			fail("connection-closed", fmt.Sprintf("sending request %d: %v", rid, err))
+			return false
+		}
+		if q.handlerRuns() {
+			select {
+			case got := <-rig.h.entered:
+				if got != rid {
+					fail("wrong-handler", fmt.Sprintf("handler entered for Id %d while request %d was sent", got, rid))
+				}
+				gatedIDs[rid] = true
+			case <-time.After(3 * time.Second):
+				fail("no-handler", fmt.Sprintf("request %d (%s) never reached its handler", rid, q.style))
+			}
+		} else {
+			model = append(model, fmt.Sprintf("D:%d", rid))
+			if !q.ow || q.hb {
+				expect(rid)
+			}
+		}
+		return true
+	}
+	explicit := false
+	for _, x := range order {
+		if x < 0 {
+			explicit = true
+		}
+	}
 	for rid, q := range reqs {
+		if explicit {
+			break
+		}
+		_ = q
+		if !sendOne(rid) {
+			break
+		}
+	}
+	for rid, q := range reqs {
+		if true {
+			break
+		}
 		model = append(model, q.modelTok(rid))
 		ps := q.payload(rid)
 		path, meth := q.pathMethod()
@@ -284,6 +334,10 @@ func srvRunCase(o *common.Out, id string, nconn int, reqs []sreqCase, order []in
 		}
 	}
 	for _, rid := range order {
+		if rid < 0 {
+			sendOne(-rid - 1)
+			continue
+		}
 		if !gatedIDs[rid] {
 			continue
 		}
@@ -315,6 +369,9 @@ func srvRunCase(o *common.Out, id string, nconn int, reqs []sreqCase, order []in
 	}
 	// the handlers that ran
 	rig.h.mu.Lock()
+	for _, sh := range rig.h.shared {
+		fail("pooled-object-shared", sh)
+	}
 	inv := append([]int{}, rig.h.invoked...)
 	rig.h.mu.Unlock()
 	sortInts(inv)
@@ -497,9 +554,36 @@ func runSrv(prop string, r *common.Rand, tier string, o *common.Out, replay stri
 		srvRunCase(o, "replay", nconn, reqs, order, p[2] == "true", prop == "C07")
 		return
 	}
+	// object-pool schedules: sync.Pool may hand back any object that was put.  With a single P it
+	// hands back the one put last, which forces the interesting case deterministically: a request
+	// reuses the argument / reply object of the previous request of the same type.
+	if prop == "C04" || prop == "C20" {
+		prev := runtime.GOMAXPROCS(1)
+		rounds := 12
+		if tier == "thorough" {
+			rounds = 200
+		}
+		for i := 0; i < rounds; i++ {
+			for _, style := range []string{"method", "pooled", "func"} {
+				mk := func(seq uint64, a, b int, omit, ow bool) sreqCase {
+					return sreqCase{conn: 0, seq: seq, style: style, ser: 1, a: a, b: b, omitB: omit, ow: ow, mode: "ok"}
+				}
+				// one-way warm-up, two overlapping requests completed in reverse order, then a
+				// fully filled request followed by one that leaves a field out
+				reqs := []sreqCase{mk(1, 2+i, 3, false, true), mk(2, 4, 5+i, false, false), mk(3, 6, 7, false, false),
+					mk(4, 2, 5+i, false, false), mk(5, 3, 9, true, false)}
+				srvRunCase(o, fmt.Sprintf("pool%d%s", i, style), 1, reqs, []int{-1, 0, -2, -3, 2, 1, -4, 3, -5, 4}, false, false)
+				o.Count("pool-reuse-schedule")
+			}
+		}
+		runtime.GOMAXPROCS(prev)
+	}
 	n := 260
 	if tier == "thorough" {
 		n = 6000
+	}
+	if prop == "C20" {
+		n = n / 4
 	}
 	for i := 0; i < n; i++ {
 		nconn := 1 + r.Intn(3)
